@@ -61,6 +61,50 @@ def curveOfPrefix (h : Nat) (steps : List (Nat × Nat)) : List Nat :=
   let d := (Arr.pfx h steps).curveOfBound njobs
   extrapolateWithBound d (h + 1) (njobs + 1)
 
+/-! ### the same constructors driven by the iterator's own progress
+
+`horizonFor` looks for a horizon by which `number_arrivals` reaches a job count; that is the
+right horizon when `steps_iter` is exact.  For a model whose `steps_iter` misses increases
+(findings F2/F3) the real `DeltaMinIterator` only advances on the steps it is given, so the
+faithful horizon is the one by which the *iterator* has emitted enough.  The definitions below
+are what the driver runs; `Lemmas/DeriveIter.lean` proves that they coincide with the
+definitions above for well-formed exact models. -/
+
+/-- a horizon by which the iterator has emitted an entry satisfying `p` (doubling search) -/
+def Arr.horizonForEntry (a : Arr) (p : Nat × Nat → Bool) : Nat → Nat → Nat
+  | 0, H => H
+  | fuel + 1, H => if (a.dminEntries H).any p then H else Arr.horizonForEntry a p fuel (2 * H + 1)
+
+/-- `Curve::from_arrival_bound`: `take_while(njobs ≤ up_to ∨ count < 2)` — complete once an
+entry for more than `max up_to 3` jobs has been emitted -/
+def Arr.curveOfBoundIter (a : Arr) (upTo : Nat) : List Nat :=
+  let m := max upTo 3
+  let H := Arr.horizonForEntry a (fun e => decide (m < e.1)) 64 1
+  ((a.dminEntries H).filter fun e => e.1 ≤ m).map (·.2)
+
+/-- `Curve::from_arrival_bound_until`: `take_while(delta ≤ horizon ∨ count < 2)` — complete
+once an entry for at least 4 jobs with a distance beyond the horizon has been emitted -/
+def Arr.curveOfBoundUntilIter (a : Arr) (horizon : Nat) : List Nat :=
+  let H := Arr.horizonForEntry a (fun e => decide (horizon < e.2) && decide (4 ≤ e.1)) 64 1
+  ((a.dminEntries H).filter fun e => e.2 ≤ horizon ∨ e.1 ≤ 3).map (·.2)
+
+/-- first `k` items of `delta_min_iter(a)` — complete once the iterator has emitted an entry
+for at least `k - 1` jobs (entry `i ≥ 2` of the sequence is the one for `i` jobs) -/
+def Arr.dminIterTakeIter (a : Arr) (k : Nat) : List (Nat × Nat) :=
+  let H := Arr.horizonForEntry a (fun e => decide (k ≤ e.1 + 1)) 64 1
+  ([(0, 0), (1, 0)] ++ a.dminEntries H).take k
+
+/-- `From<Sporadic> for Curve` -/
+def curveOfSporadicIter (T J : Nat) : List Nat :=
+  let jitterJobs := ceilDiv J T
+  (Arr.sporadic T J).curveOfBoundIter (max 500 (jitterJobs * 10))
+
+/-- `From<&ArrivalCurvePrefix> for Curve` -/
+def curveOfPrefixIter (h : Nat) (steps : List (Nat × Nat)) : List Nat :=
+  let njobs := (steps.getLast?.map (·.2)).getD 0
+  let d := (Arr.pfx h steps).curveOfBoundIter njobs
+  extrapolateWithBound d (h + 1) (njobs + 1)
+
 /-- first `k` items of `delta_min_iter(a)` -/
 def Arr.dminIterTake (a : Arr) (k : Nat) : List (Nat × Nat) :=
   let H := Arr.horizonFor a (k + 1) 64 1
